@@ -27,6 +27,7 @@ func init() {
 // compareLayout checks the records of one kind against its table rows.
 // recs are rows in the same normal form as the table. Returns obligations via r.
 func compareLayout(r *Report, rule, kind, pos string, table *Layout, recs [][5]string, side string) {
+	table = renamePrivateFields(theWorld, kind, table, recs)
 	have := map[string][5]string{}
 	bySrc := map[string][][5]string{}
 	for _, rc := range recs {
@@ -478,3 +479,120 @@ func isPaddingField(w *World, kindName, src string) bool {
 }
 
 var padCache = map[string]bool{}
+
+// renamePrivateFields: the tables name Go fields; exported names are API, but an unexported field may be
+// renamed at will. When the table mentions an unexported field the kind no longer has, and exactly one
+// unexported field of the kind that the table does not mention makes every row that named the old field
+// match a record, the table is read with that name (the slot is identified by its place, not its name).
+func renamePrivateFields(w *World, kindName string, table *Layout, recs [][5]string) *Layout {
+	if w == nil || table == nil {
+		return table
+	}
+	k := w.Kinds[kindName]
+	if k == nil {
+		return table
+	}
+	st := structOf(k.Named)
+	if st == nil {
+		return table
+	}
+	current := map[string]bool{}
+	for i := 0; i < st.NumFields(); i++ {
+		current[st.Field(i).Name()] = true
+	}
+	nameRe := func(row [5]string) []string {
+		var out []string
+		for _, cell := range row {
+			for i := 0; i+2 < len(cell); i++ {
+				if cell[i] == '$' && cell[i+1] == '.' {
+					j := i + 2
+					for j < len(cell) && (cell[j] == '_' || cell[j] >= 'a' && cell[j] <= 'z' || cell[j] >= 'A' && cell[j] <= 'Z' || cell[j] >= '0' && cell[j] <= '9') {
+						j++
+					}
+					out = append(out, cell[i+2:j])
+					i = j
+				}
+			}
+		}
+		return out
+	}
+	mentioned := map[string]bool{}
+	var gone []string
+	for _, row := range table.Fields {
+		for _, n := range nameRe(row) {
+			if !mentioned[n] {
+				mentioned[n] = true
+				if !current[n] && n != "" && !ast.IsExported(n) {
+					gone = append(gone, n)
+				}
+			}
+		}
+	}
+	if len(gone) == 0 {
+		return table
+	}
+	have := map[string]bool{}
+	for _, rc := range recs {
+		have[strings.Join(rc[:], "|")] = true
+	}
+	out := &Layout{Cite: table.Cite, Fields: append([][5]string(nil), table.Fields...)}
+	for _, old := range gone {
+		var fits []string
+		for i := 0; i < st.NumFields(); i++ {
+			cand := st.Field(i).Name()
+			if ast.IsExported(cand) || mentioned[cand] {
+				continue
+			}
+			ok, any := true, false
+			for _, row := range out.Fields {
+				uses := false
+				for _, n := range nameRe(row) {
+					if n == old {
+						uses = true
+					}
+				}
+				if !uses {
+					continue
+				}
+				any = true
+				nr := row
+				for c := range nr {
+					nr[c] = replaceField(nr[c], old, cand)
+				}
+				if !have[strings.Join(nr[:], "|")] {
+					ok = false
+				}
+			}
+			if ok && any {
+				fits = append(fits, cand)
+			}
+		}
+		if len(fits) == 1 {
+			for i, row := range out.Fields {
+				for c := range row {
+					row[c] = replaceField(row[c], old, fits[0])
+				}
+				out.Fields[i] = row
+			}
+		}
+	}
+	return out
+}
+
+// replaceField renames "$.old" to "$.new" where it is a whole field name.
+func replaceField(cell, old, nw string) string {
+	var b strings.Builder
+	for i := 0; i < len(cell); {
+		if strings.HasPrefix(cell[i:], "$."+old) {
+			j := i + 2 + len(old)
+			if j == len(cell) || !(cell[j] == '_' || cell[j] >= 'a' && cell[j] <= 'z' || cell[j] >= 'A' && cell[j] <= 'Z' || cell[j] >= '0' && cell[j] <= '9') {
+				b.WriteString("$." + nw)
+				i = j
+				continue
+			}
+		}
+		b.WriteByte(cell[i])
+		i++
+	}
+	return b.String()
+}
